@@ -281,12 +281,17 @@ def evaluate(case, P, dps):
         regs = [var(mpf(unhex(v)), i, n) for i, v in enumerate(case["vars"])]
         # single precision under- and overflows much earlier (squares of 1e-20 are lost)
         low, high = (mpf(10) ** -30, mpf(10) ** 8) if case["type"] == "Real64" else (mpf(10) ** -8, mpf(10) ** 6)
+        low_, high_ = low, high
         if any(r.v != 0 and abs(r.v) < low for r in regs):
             raise Domain(0)
 
         def operand(kind, reg, val):
             if kind in ("const", "plain"):
-                return const(mpf(unhex(val)), n)
+                v = mpf(unhex(val))
+                # constants obey the moderate range as well (-Inf is a legitimate operand of LogAdd/LogSub)
+                if mp.isfinite(v) and v != 0 and not (low_ <= abs(v) <= high_):
+                    raise Domain()
+                return const(v, n)
             return regs[reg]
         for at, ins in enumerate(case["prog"]):
             try:
@@ -399,7 +404,9 @@ def programs(draw):
         nreg = max(nreg, dst + 1)
     # the variables may hold derivatives of an earlier computation when they are activated
     prior = draw(st.integers(0, 3)) == 0
-    return {"type": rtype, "order": order, "vars": [fhex(v) for v in vars_], "prog": prog, "prior": prior}
+    # ... possibly of another derivative order
+    prior_order = draw(st.sampled_from([1, 2])) if prior else 0
+    return {"type": rtype, "order": order, "vars": [fhex(v) for v in vars_], "prog": prog, "prior": prior, "prior_order": prior_order}
 
 
 def describe(case):
@@ -417,7 +424,7 @@ def describe(case):
         else:
             parts.append("r%d=%s(%s,%s)" % (ins["dst"], ins["op"].upper() if ins.get("cc") else ins["op"], opnd(ins["ka"], ins["a"], ins.get("va")), opnd(ins["kb"], ins["b"], ins.get("vb"))))
     return "%s order %d vars %s%s: %s" % (case["type"], case["order"], [unhex(v) for v in case["vars"]],
-                                       " (activated again after an in-place update)" if case.get("prior") else "", "; ".join(parts))
+                                       (" (activated again after an in-place update of order %d)" % (case.get("prior_order") or case["order"])) if case.get("prior") else "", "; ".join(parts))
 
 
 def check_program(case, srv, stats):
@@ -449,6 +456,8 @@ def check_program(case, srv, stats):
     classes = ["type=" + case["type"], "order=%d" % case["order"], "n=%d" % n] + ["op=" + o for o in ops]
     if case.get("prior"):
         classes.append("variables activated again after an earlier computation")
+        if (case.get("prior_order") or case["order"]) != case["order"]:
+            classes.append("re-activation with another derivative order")
     if truncated:
         classes.append("program cut before an operation that leaves its domain")
     if any(i.get("cc") for i in case["prog"]):
@@ -475,7 +484,8 @@ def check_program(case, srv, stats):
     except (Domain, ZeroDivisionError, OverflowError, ValueError):
         stats.case(desc, ["at the boundary of a domain (perturbed evaluation leaves it)"], False)
         return
-    resp = srv.ask({"k": "expr", "type": case["type"], "order": case["order"], "vars": case["vars"], "prog": case["prog"], "prior": bool(case.get("prior"))})
+    resp = srv.ask({"k": "expr", "type": case["type"], "order": case["order"], "vars": case["vars"], "prog": case["prog"], "prior": bool(case.get("prior")),
+                    "prior_order": int(case.get("prior_order") or 0)})
     if "panic" in resp or "died" in resp or "err" in resp:
         raise Violation("%s: the library failed: %s" % (desc, resp))
     if resp.get("helpers"):
